@@ -300,6 +300,26 @@ def paired_case(ctx, k):
         by_id = {}
         for r in rows:
             by_id.setdefault(fastx.rid(r[0]), []).append(r)
+        if action != "trim":
+            # the rows describe the matches, not what the action does with them: the same command with the default action
+            # must list the same matches (errors, coordinates, adapter) for every read
+            argv_t = [x for i, x in enumerate(argv) if x != "--action" and (i == 0 or argv[i - 1] != "--action")]
+            argv_t = [("info_t.tsv" if x == "info.tsv" else "t1.fq" if x == "o1.fq" else "t2.fq" if x == "o2.fq" else x) for x in argv_t]
+            run_t = climon.run(d, argv_t, tag="trim", trace=False)
+            if run_t.rc == 0:
+                with open(run_t.path("info_t.tsv")) as f:
+                    rows_t = parse_info(f.read())
+                by_t = {}
+                for r in rows_t:
+                    by_t.setdefault(fastx.rid(r[0]), []).append(r)
+                key_of = lambda rws: [(r[1], r[2], r[3], r[7]) if len(r) > 7 and r[1] != "-1" else ("-1",) for r in rws]
+                for name, s, q in recs1:
+                    k_ = fastx.rid(name)
+                    if key_of(by_id.get(k_, [])) != key_of(by_t.get(k_, [])):
+                        ctx.violation("info-rows-depend-on-action", f"pair {k_}: rows with --action={action}: {key_of(by_id.get(k_, []))}, with the default action: "
+                                      f"{key_of(by_t.get(k_, []))}; argv={argv}", case, facts=dict(paired=True), klass="actionpaired")
+                        break
+                ctx.count("paired_runs_compared_with_the_default_action")
         for name, s, q in recs1:
             key = fastx.rid(name)
             rws = by_id.get(key)
